@@ -24,6 +24,9 @@ package smf
 //@ requires len(src.Tracks) >= 1
 //@ ensures [P:C16] src.format != 1 ==> (dest.format == 1 && dest.TimeFormat == src.TimeFormat)
 //@ ensures [P:C16] src.format != 1 ==> (1 <= len(dest.Tracks) && len(dest.Tracks) <= 17)
+// the first track is the one built from the events that are not channel messages: it holds no channel message
+//@ ensures [P:C16] src.format != 1 ==> forall j int :: 0 <= j && j < len(dest.Tracks[0]) ==> !isCh(dest.Tracks[0][j].Message)
+//@ ensures [P:C16] src.format != 1 ==> (len(dest.Tracks[0]) > 0 && isEOT(dest.Tracks[0][len(dest.Tracks[0])-1].Message))
 // (what lands on which output track: the events are first split by channel - loop 0: channelTracks[c] holds exactly the
 // channel messages of channel c, metaTrack none - and each list is then copied to a track of its own - loops 1 and 3.
 // The statement over dest.Tracks itself is not proved: with the new backing array of dest.Tracks declared in SMF.Add's
@@ -45,9 +48,13 @@ package smf
 //@ loop 1 decreases len(metaTrack) - rangeindex
 //@ loop 2 invariant 0 <= i && i <= 16 && dest.format == 1 && dest.TimeFormat == src.TimeFormat
 //@ loop 2 invariant 1 <= len(dest.Tracks) && len(dest.Tracks) <= 1 + i
+//@ loop 2 invariant dest.Tracks[0] == metaTarget && len(metaTarget) > 0 && isEOT(metaTarget[len(metaTarget)-1].Message)
+//@ loop 2 invariant forall j int :: 0 <= j && j < len(metaTarget) ==> !isCh(metaTarget[j].Message)
 //@ loop 2 decreases 16 - i
 //@ loop 3 invariant -1 <= rangeindex && rangeindex < len(evts) && dest.format == 1 && dest.TimeFormat == src.TimeFormat && 0 <= i && i < 16
 //@ loop 3 invariant 1 <= len(dest.Tracks) && len(dest.Tracks) <= 1 + i
+//@ loop 3 invariant dest.Tracks[0] == metaTarget && len(metaTarget) > 0 && isEOT(metaTarget[len(metaTarget)-1].Message)
+//@ loop 3 invariant forall j int :: 0 <= j && j < len(metaTarget) ==> !isCh(metaTarget[j].Message)
 //@ loop 3 invariant len(t) == rangeindex + 1 && forall j int :: 0 <= j && j < len(t) ==> (isCh(t[j].Message) && (t[j].Message[0] & 0x0F) == uint8(i))
 //@ loop 3 invariant forall j int :: 0 <= j && j < len(evts) ==> evts[j] != nil
 //@ loop 3 invariant (rangeindex == -1 ==> lastAbs == 0) && (rangeindex >= 0 ==> lastAbs == evts[rangeindex].AbsTicks)
